@@ -47,7 +47,7 @@ def shards(tier):
 
 
 def timeout(tier):
-    return 400 if tier == "quick" else 2400
+    return 900 if tier == "quick" else 5400
 
 
 class Lex:
